@@ -32,7 +32,7 @@ func checkC14(c *km.Ctx) {
 	r.Rule("R-C14-1", "every call of checkUserPassword is dominated by checkPasswordAttemptLimit == nil; that function returns nil only on Allow() == true and answers 429 otherwise", 2)
 	r.Rule("R-C14-2", "the global limiter is constructed once (outside tests) from the rate and burst configuration fields; adjustments after parsing raise them to floors of at most 10 (burst) and 1 (rate)", 1)
 	r.Rule("R-C14-3", "TOTP spacing: lookup, test and update of lastCheckTime in one uninterrupted critical section; early return when less than a constant >= 2 s elapsed; spacing and lock-out tests precede any decryption / validation", 2)
-	r.Rule("R-C14-4", "lock-out bookkeeping is effective: no computed time is discarded; a failure increments the counter, every fifth failure sets a future lock-out time, and the record is written back under the mutex on every exit after validation", 3)
+	r.Rule("R-C14-4", "lock-out bookkeeping is effective: no computed time is discarded; a failure increments the counter, every fifth failure sets a future lock-out time, and the record is written back under the mutex on every exit after validation; every access files the record under the user name as received", 3)
 	checkConfigKeys(c, "R-C14-2", "the password attempt limits", "base.password_attempt_global_")
 
 	// ---------- R-C14-1
